@@ -337,7 +337,24 @@ def byteorder(ctx):
     sw = [c_ for c_ in calls_in(e) if call_attr(c_) == "byteswap"]
     ctx.check(bool(sw) and all(not c_.args and not c_.keywords for c_ in sw), sw[0] if sw else e, "the swap makes a copy (byteswap() without inplace): a memory-mapped or shared buffer is never modified",
               "byte order is normalised with byteswap(%s): the legacy reader hands memory-mapped arrays to this function, so the file itself would be rewritten" % (unparse(sw[0], 60) if sw else ""))
-    ctx.check(any("array.byteswap().view(array.dtype.newbyteorder('='))" in unparse(s_, 400) for s_ in ast.walk(e) if isinstance(s_, ast.Assign)), e, "swap = byteswap + view with native dtype (values preserved)")
+    # the swapped copy is re-interpreted with the NATIVE dtype (`<array>.byteswap().view(<array>.dtype.newbyteorder('='))`) and
+    # that value is what the function hands back - spelled in one expression or through locals, assigned or returned
+    p_arr = e.args.args[0].arg
+    def _res(x):
+        if isinstance(x, ast.Name) and x.id != p_arr:
+            dd = _def(e, x.id)
+            return dd[0].value if len(dd) == 1 else x
+        return x
+    views = [c_ for c_ in calls_in(e) if call_attr(c_) == "view" and isinstance(c_.func.value, ast.Call) and call_attr(c_.func.value) == "byteswap" and dotted(c_.func.value.func.value) == p_arr
+             and len(c_.args) == 1 and unparse(_res(c_.args[0])) == "%s.dtype.newbyteorder('=')" % p_arr]
+    handed = False
+    for v_ in views:
+        st_ = enclosing_stmt(v_)
+        if isinstance(st_, ast.Return) and st_.value is v_:
+            handed = True
+        if isinstance(st_, ast.Assign) and st_.value is v_ and any(isinstance(r_.value, ast.Name) and r_.value.id in stores_to(st_) for r_ in nodes_of_type(e, ast.Return)):
+            handed = True
+    ctx.check(handed, views[0] if views else e, "swap = byteswap + view with native dtype (values preserved)")
     pr = ctx.repo.func(NPU, "_is_numpy_array_byte_order_mismatch")
     rets_ = nodes_of_type(pr, ast.Return)
     if len(rets_) != 1 or rets_[0].value is None:
